@@ -837,56 +837,71 @@ def check(prop: str, tier: str) -> int:
         if k.startswith("known_finding_hits."):
             known_hits[k[len("known_finding_hits.") :]] += n
     reported: list[dict[str, Any]] = []
+    by_sig: dict[str, list[tuple[int, dict[str, list[list[int]]], Violation]]] = {}
     for run, rec, v in br.violations:
         sig = v.signature or f"{v.oracle}:{v.call}"
         if sig in known:
             known_hits[sig] += 1
             continue
         seen_sig[sig] = seen_sig.get(sig, 0) + 1
-        if seen_sig[sig] > 1 or len(reported) >= 5:
-            continue
-        if run < 0:
-            # violation from an enumerated phase: record is already minimal
-            small, execs = rec, 0
-        else:
-            small, execs = shrink(eng, rec, v.klass())
-        n0 = sum(len(s) for s in rec.values())
-        path = write_replay(prop, eng, vseed, run, small, v, n0, execs, tier)
-        env = dict(os.environ)
-        env["PYTHONHASHSEED"] = hs_other
+        by_sig.setdefault(sig, []).append((run, rec, v))
+    env = dict(os.environ)
+    env["PYTHONHASHSEED"] = hs_other
+
+    def _replay(path: str) -> int:
         try:
-            p = subprocess.run(
+            pr = subprocess.run(
                 [PYTHON, "-m", "simverif", prop, "--replay", path],
                 cwd=VERIF_DIR, env=env, capture_output=True, text=True, timeout=1800,
             )
         except subprocess.TimeoutExpired:
-            print(f"HARNESS-ERROR: replay of {path} in a fresh interpreter did not finish within 1800 s; not reported as a violation")
+            return 124
+        _replay.last_out = pr.stdout  # type: ignore[attr-defined]
+        return pr.returncode
+
+    for sig, cands in by_sig.items():
+        if len(reported) >= 5:
+            break
+        # a violation that depends on what the *process* did before (state kept at class or
+        # module level) may not be reproducible from its own input alone: try a few
+        # occurrences of the signature (sampled runs first: they tend to be self-contained)
+        cands = sorted(cands, key=lambda t: (t[0] < 0, t[0]))[:6]
+        confirmed = False
+        last_fail = ""
+        for run, rec, v in cands:
+            if run < 0:
+                # violation from an enumerated phase: record is already minimal
+                small, execs = rec, 0
+            else:
+                small, execs = shrink(eng, rec, v.klass())
+            n0 = sum(len(st_) for st_ in rec.values())
+            path = write_replay(prop, eng, vseed, run, small, v, n0, execs, tier)
+            rc = _replay(path)
+            if rc == 0 and eng.replay_repeat_max > 1:
+                # not reproduced by one execution in a fresh process: does it need history?
+                path = write_replay(prop, eng, vseed, run, small, v, n0, execs, tier, repeat=eng.replay_repeat_max)
+                rc = _replay(path)
+                if rc == 1:
+                    print(
+                        f"note: the violation below needs process history: the replay executes the recorded "
+                        f"input up to {eng.replay_repeat_max} times in one process"
+                    )
+            if rc == 1:
+                print(f"violation: {v.oracle} in {v.call} at step {v.step}: {v.detail} [signature {sig}]")
+                print(f"VIOLATION property={prop} replay={path}")
+                reported.append({"signature": sig, "replay": path, **v.to_json()})
+                confirmed = True
+                break
+            last_fail = (
+                f"HARNESS-ERROR: replay of {path} in a fresh interpreter did not reproduce (exit {rc}); not reported as a violation\n"
+                + getattr(_replay, "last_out", "")[-1500:]
+            )
+        if confirmed:
+            status = max(status, 1) if status != 2 else 2
+        else:
+            print(last_fail)
+            print(f"  ({len(cands)} occurrence(s) of signature {sig} tried)")
             status = 2
-            continue
-        if p.returncode == 0 and eng.replay_repeat_max > 1:
-            # not reproduced by one execution in a fresh process: does it need history?
-            path = write_replay(prop, eng, vseed, run, small, v, n0, execs, tier, repeat=eng.replay_repeat_max)
-            p = subprocess.run(
-                [PYTHON, "-m", "simverif", prop, "--replay", path],
-                cwd=VERIF_DIR, env=env, capture_output=True, text=True, timeout=1800,
-            )
-            if p.returncode == 1:
-                print(
-                    f"note: the violation below needs process history: the replay executes the recorded "
-                    f"input up to {eng.replay_repeat_max} times in one process"
-                )
-        if p.returncode != 1:
-            print(
-                f"HARNESS-ERROR: replay of {path} in a fresh interpreter did not reproduce "
-                f"(exit {p.returncode}); not reported as a violation"
-            )
-            print(p.stdout[-1500:])
-            status = max(status, 2)
-            continue
-        print(f"violation: {v.oracle} in {v.call} at step {v.step}: {v.detail} [signature {sig}]")
-        print(f"VIOLATION property={prop} replay={path}")
-        reported.append({"signature": sig, "replay": path, **v.to_json()})
-        status = max(status, 1) if status != 2 else 2
     if seen_sig:
         print(f"[{prop}] violation signatures in this batch: " + ", ".join(f"{k} x{n}" for k, n in sorted(seen_sig.items())))
     for sig in sorted(known):
